@@ -33,6 +33,9 @@ type Seg struct {
 	HorizonMs int `json:"horizon_ms,omitempty"`
 	// PeerFirst: in this burst the peers talk before the client does (other port first).
 	PeerFirst bool `json:"peer_first,omitempty"`
+	// Realloc: before the gap the relayed socket is closed, the client allocates again and the old
+	// handle is closed a second time
+	Realloc bool `json:"realloc,omitempty"`
 	// Flood > 0: before the gap the application stops reading and a permitted peer sends this many
 	// datagrams (more than the relayed socket queues); it only resumes reading after the gap. What
 	// overflows may be dropped, the client's own upkeep (refreshes) must go on regardless.
@@ -68,6 +71,7 @@ type c14Result struct {
 	atHorizon int
 	peerFirst int
 	floods    int
+	reallocs  int
 	// sibling-port probes after an idle gap longer than the default permission lifetime
 	siblingAfterIdle int
 }
@@ -275,25 +279,28 @@ func runC14Inner(c *C14Case) (res c14Result) { //nolint:cyclop,gocyclo,maintidx
 		resume = nil
 		rmu.Unlock()
 	}
-	go func() {
-		defer close(done)
-		buf := make([]byte, 2048)
-		for {
-			rmu.Lock()
-			ch := resume
-			rmu.Unlock()
-			if ch != nil {
-				<-ch
+	startReader := func(conn net.PacketConn, finished chan struct{}) {
+		go func() {
+			defer close(finished)
+			buf := make([]byte, 2048)
+			for {
+				rmu.Lock()
+				ch := resume
+				rmu.Unlock()
+				if ch != nil {
+					<-ch
+				}
+				k, from, err := conn.ReadFrom(buf)
+				if err != nil {
+					return
+				}
+				rmu.Lock()
+				got = append(got, rx{from: from.String(), payload: append([]byte{}, buf[:k]...)})
+				rmu.Unlock()
 			}
-			k, from, err := relay.ReadFrom(buf)
-			if err != nil {
-				return
-			}
-			rmu.Lock()
-			got = append(got, rx{from: from.String(), payload: append([]byte{}, buf[:k]...)})
-			rmu.Unlock()
-		}
-	}()
+		}()
+	}
+	startReader(relay, done)
 	relayAddr := relay.LocalAddr().(*net.UDPAddr) //nolint:forcetypeassert
 	fail := func(kind, f string, a ...any) *c14Result {
 		r := &c14Result{kind: kind, msg: fmt.Sprintf("at %v of protocol time: ", time.Since(start).Round(time.Millisecond)) + fmt.Sprintf(f, a...) + "\n  log tail:\n    " + strings.Join(tail(logger.Lines(), 14), "\n    ")}
@@ -305,6 +312,43 @@ func runC14Inner(c *C14Case) (res c14Result) { //nolint:cyclop,gocyclo,maintidx
 	}
 	seq := 0
 	for si, sg := range c.Segs {
+		if sg.Realloc && si > 0 {
+			// the application closes its relayed socket, allocates again on the same client and later
+			// closes the old handle once more (a deferred Close): the new socket must be unaffected
+			old := relay
+			wireAtReClose := n.WireLen()
+			if err := old.Close(); err != nil {
+				return *fail("close-error", "Close of the relayed socket failed: %v", err)
+			}
+			time.Sleep(8 * time.Second)
+			<-done
+			nr, aerr := cl.Allocate()
+			if aerr != nil {
+				if cnt := srv.AllocationCount(); cnt != 0 {
+					kind := "allocation-not-released"
+					for _, d := range n.Wire(wireAtReClose) {
+						if d.SrcSock == srvSock.ID && isSTUN(d.Data) {
+							if m, perr := ref.Parse(d.Data); perr == nil && m.Method == ref.MethodRefresh && m.Class == ref.ClassError && m.ErrorCode() == 438 {
+								kind = "close-refresh-stale-nonce" // the recorded known finding
+							}
+						}
+					}
+
+					return *fail(kind, "re-allocation failed (%v): the closed socket's allocation is still at the server (AllocationCount=%d)", aerr, cnt)
+				}
+
+				return *fail("reallocate-failed", "Allocate after closing the relayed socket failed: %v", aerr)
+			}
+			relay = nr
+			relayAddr = relay.LocalAddr().(*net.UDPAddr) //nolint:forcetypeassert
+			done = make(chan struct{})
+			startReader(relay, done)
+			written = map[int]bool{}
+			if cerr := old.Close(); cerr == nil {
+				return *fail("double-close-no-error", "the second Close of the old relayed socket returned nil")
+			}
+			res.reallocs++
+		}
 		flooded := false
 		if sg.Flood > 0 && written[0] && joined(0, si) {
 			// the application stops reading; peer 0 keeps sending
@@ -512,6 +556,9 @@ func genC14(rt *rapid.T, maxHours int) *C14Case {
 		if rapid.IntRange(0, 9).Draw(rt, "refusedSeg") == 0 {
 			sg.Refused = rapid.IntRange(1, 2).Draw(rt, "refusedKind")
 		}
+		if len(c.Segs) > 0 && rapid.IntRange(0, 19).Draw(rt, "reallocSeg") == 0 {
+			sg.Realloc = true
+		}
 		if len(c.Segs) > 0 && rapid.IntRange(0, 11).Draw(rt, "floodSeg") == 0 {
 			sg.Flood = rapid.SampledFrom([]int{1000, 1025, 1100, 1500, 3000}).Draw(rt, "flood")
 		}
@@ -621,6 +668,9 @@ func TestC14(t *testing.T) {
 		}
 		if res.floods > 0 {
 			r.Label("reader-paused-under-flood")
+		}
+		if res.reallocs > 0 {
+			r.Label("re-allocation-and-stale-close")
 		}
 		if res.peerFirst > 0 {
 			r.Label("peers-speak-first")
